@@ -1,6 +1,6 @@
 (** The table theorem of C11, re-checked on every run against the table that
     tools/routes extracts from the current source (coq/Gen/Routes.v). *)
-From AGH Require Import Base.Run Model.AuthHttp Proofs.AuthHttp Proofs.AuthCreds Gen.Routes.
+From AGH Require Import Base.Run Model.AuthHttp Proofs.AuthHttp Proofs.AuthCreds Proofs.AuthMethod Gen.Routes.
 
 Definition gen_table_ok : bool :=
   table_ok Gen.Routes.routes Gen.Routes.reg_empty Gen.Routes.reg_method
@@ -36,4 +36,12 @@ Definition gen_not_blind : list (bytes * bytes) :=
       (List.filter (fun rt => negb (route_blind Gen.Routes.reg_method rt)) Gen.Routes.routes).
 
 Lemma all_routes_blind : forallb (route_blind Gen.Routes.reg_method) Gen.Routes.routes = true.
+Proof. vm_compute. reflexivity. Qed.
+
+(** Round 4: the declared methods ([route_method_ok] of Proofs/AuthMethod.v). *)
+Definition gen_bad_methods : list (bytes * bytes) :=
+  map (fun rt => (rt_pattern rt, rt_pos rt))
+      (List.filter (fun rt => negb (route_method_ok rt)) Gen.Routes.routes).
+
+Lemma all_routes_methods_canonical : forallb route_method_ok Gen.Routes.routes = true.
 Proof. vm_compute. reflexivity. Qed.
